@@ -19,9 +19,7 @@ theorem release_dirty_closes (c : Conn P) (now : Nat) (fc explicit : Bool)
     (h : fc = true ∨ explicit = true ∨ c.shouldClose = true ∨ c.upgraded = true ∨ c.exc.isSome = true ∨
          c.buffer ≠ [] ∨ c.tail ≠ [] ∨ (∃ p, c.payload = some p ∧ c.payEof p = false)) :
     (c.release now fc explicit).connected = false ∧ (c.release now fc explicit).pooled = none := by
-  have hrfl : Conn.shouldCloseProp { c with owner := none } = c.shouldCloseProp := rfl
-  have hs : (fc || explicit || Conn.shouldCloseProp { c with owner := none }) = true := by
-    rw [hrfl]
+  have hs : (fc || explicit || c.shouldCloseProp) = true := by
     rcases h with h | h | h | h | h | h | h | ⟨p, hp, he⟩
     · simp [h]
     · simp [h]
@@ -82,6 +80,40 @@ theorem acquired_clean_fixed (c : Conn P) (k : Key) (j now ka : Nat)
         simp at h1
         exact h1.2
   · split at h <;> simp at h
+
+/-- `BaseConnector._get`: whatever entry the loop over the pool returns for a request with key
+`k` by exchange `j` was opened under exactly `k`, and is now held by `j`. -/
+theorem getLoop_same_key (l : List Nat) (w w' : World P) (k : Key) (j c : Nat)
+    (h : World.getLoop w k j l = (w', some c)) :
+    ∃ cn, w'.conns[c]? = some cn ∧ cn.key = k ∧ cn.owner = some j := by
+  induction l generalizing w with
+  | nil => simp [World.getLoop] at h
+  | cons a rest ih =>
+    unfold World.getLoop at h
+    split at h
+    · exact ih w h
+    · next cn hcn =>
+      split at h
+      · next hk =>
+        cases hta : cn.tryAcquire k j w.now w.cfg.keepalive w.cfg.fix with
+        | mk cn' ok =>
+          simp only [hta] at h
+          cases ok with
+          | true =>
+            simp at h
+            obtain ⟨hw, hc⟩ := h
+            subst hc; subst hw
+            have hsk := tryAcquire_same_key cn k j w.now w.cfg.keepalive w.cfg.fix (by rw [hta])
+            rw [hta] at hsk
+            refine ⟨cn', ?_, hsk.2.1, hsk.2.2⟩
+            have hlt : a < w.conns.length := by
+              have := (List.getElem?_eq_some_iff.mp hcn).1
+              exact this
+            simp [World.setConn, hlt]
+          | false =>
+            simp at h
+            exact ih _ h
+      · exact ih w h
 
 /-! ## Known findings: kernel-checked counterexamples on the model of the unchanged code
 (`fix := false`), instantiated with the token parser `toyParser` -/
